@@ -73,6 +73,7 @@ def run(chk):
     th, ax, un = list(chk.cov.get("theorems", [])), dict(chk.cov.get("axioms", {})), list(chk.cov.get("unproved_full_statements", []))
     seq_rule = chk.cov.get("rule", "")
     c13conc.run_part(chk)
+    chk.live_part()
     chk.cov["theorems"] = th + [t for t in chk.cov.get("theorems", []) if t not in th]
     ax.update(chk.cov.get("axioms", {}))
     chk.cov["axioms"] = ax
